@@ -653,7 +653,8 @@ nodesLoop:
 				case *ast.Send:
 					_ = tc.checkNodes([]ast.Node{comm})
 				}
-				cas.Body = tc.checkNodesInNewScope(node, cas.Body)
+				// The statements of the clause are in the implicit block of the clause.
+				cas.Body = tc.checkNodes(cas.Body)
 				tc.scopes.Exit()
 				terminating = terminating && tc.terminating
 			}
